@@ -466,56 +466,56 @@ func (cx *Ctx) batchCompletedWriters(r *Report, per map[string][]hev) {
 // batch that is skipped at its expiry leaves queue and index entries that nothing serves).
 func expirySettledConverse(r *Report, refundEv hev, pos string) {
 	refund := []hev{refundEv}
-		// … and whenever the batch is not completed: the test that guards the settlement is false
-		// only for a completed batch (a plan that also skips, say, a paused context leaves the
-		// requests of its open batch unexpired for good - the list is looked at once)
-		{
-			decided, converse := false, true
-			var site ssa.Instruction = refund[0].ev.Site
-			for f := refund[0].ev.Fr; f != nil && !decided; f = f.Parent {
-				for _, df := range dominatingFacts(site.Block()) {
-					as, okA := refund[0].w.constAlts(f, df.Cond, 0)
-					if !okA {
+	// … and whenever the batch is not completed: the test that guards the settlement is false
+	// only for a completed batch (a plan that also skips, say, a paused context leaves the
+	// requests of its open batch unexpired for good - the list is looked at once)
+	{
+		decided, converse := false, true
+		var site ssa.Instruction = refund[0].ev.Site
+		for f := refund[0].ev.Fr; f != nil && !decided; f = f.Parent {
+			for _, df := range dominatingFacts(site.Block()) {
+				as, okA := refund[0].w.constAlts(f, df.Cond, 0)
+				if !okA {
+					continue
+				}
+				isGuard := false
+				for _, a := range as {
+					if a.val.Kind() != constant.Bool || constant.BoolVal(a.val) != df.Holds {
 						continue
 					}
-					isGuard := false
-					for _, a := range as {
-						if a.val.Kind() != constant.Bool || constant.BoolVal(a.val) != df.Holds {
-							continue
-						}
-						for k, ft := range a.facts {
-							if ft.Holds && strings.HasSuffix(k, ".BatchState != 1)") {
-								isGuard = true
-							}
-						}
-					}
-					if !isGuard {
-						continue
-					}
-					decided = true
-					for _, a := range as {
-						if a.val.Kind() != constant.Bool || constant.BoolVal(a.val) == df.Holds {
-							continue
-						}
-						done := false
-						for k, ft := range a.facts {
-							if !ft.Holds && strings.HasSuffix(ft.Text, ".BatchState != 1)") || ft.Holds && strings.HasSuffix(k, ".BatchState == 1)") {
-								done = true
-							}
-						}
-						if !done {
-							converse = false
+					for k, ft := range a.facts {
+						if ft.Holds && strings.HasSuffix(k, ".BatchState != 1)") {
+							isGuard = true
 						}
 					}
 				}
-				if f.Call != nil {
-					site = f.Call
-				} else if f.ViaSite != nil {
-					site = f.ViaSite
-				} else {
-					break
+				if !isGuard {
+					continue
+				}
+				decided = true
+				for _, a := range as {
+					if a.val.Kind() != constant.Bool || constant.BoolVal(a.val) == df.Holds {
+						continue
+					}
+					done := false
+					for k, ft := range a.facts {
+						if !ft.Holds && strings.HasSuffix(ft.Text, ".BatchState != 1)") || ft.Holds && strings.HasSuffix(k, ".BatchState == 1)") {
+							done = true
+						}
+					}
+					if !done {
+						converse = false
+					}
 				}
 			}
-			r.check(decided && converse, "expiry-body-complete", "EndBlock", pos, "the settlement of an expired batch is skipped only when the batch is already completed", "the test guarding the settlement of an expired batch can be false for a batch that is not completed: its unanswered requests are then never expired (no slash, no refund, active-index entries left behind) - the expired-batch list is looked at only once")
+			if f.Call != nil {
+				site = f.Call
+			} else if f.ViaSite != nil {
+				site = f.ViaSite
+			} else {
+				break
+			}
 		}
+		r.check(decided && converse, "expiry-body-complete", "EndBlock", pos, "the settlement of an expired batch is skipped only when the batch is already completed", "the test guarding the settlement of an expired batch can be false for a batch that is not completed: its unanswered requests are then never expired (no slash, no refund, active-index entries left behind) - the expired-batch list is looked at only once")
+	}
 }
